@@ -434,6 +434,27 @@ def handlePreserve (j : Json) : Option Json := do
     ("file_preserve", Json.arr ((Preserve.filePreserve used ns).map Json.str).toArray),
     ("used_names", Json.arr ((Preserve.usedNames ⟨imported, loads, attrs⟩).map Json.str).toArray)])
 
+def handleLayout (j : Json) : Option Json := do
+  let src ← (field? j "src") >>= getStr?
+  some (Json.mkObj [("expandtabs", Json.str (String.ofList (Layout.expandTabs src.toList))),
+                    ("rmspace", Json.str (String.ofList (Layout.rmspace src.toList)))])
+
+def handleImports (j : Json) : Option Json := do
+  let items ← (field? j "imports") >>= getArr?
+  let imps ← items.toList.mapM (fun it => do
+    let a ← getArr? it
+    let opt (x : Json) : Option (Option String) := if x.isNull then some none else (getStr? x).map some
+    match (← getStr? a[0]!) with
+    | "plain" => some (Imports.Imp.plain (← getStr? a[1]!) (← opt a[2]!))
+    | "from" => some (Imports.Imp.from_ (← getStr? a[1]!) (← getStr? a[2]!) (← opt a[3]!))
+    | _ => none)
+  let names := (imps.map Imports.Imp.bound).eraseDups
+  some (Json.mkObj [("env", Json.arr (names.map (fun n =>
+    match Imports.env imps n with
+    | some (m, some a) => Json.arr #[Json.str n, Json.str m, Json.str a]
+    | some (m, none) => Json.arr #[Json.str n, Json.str m, Json.null]
+    | none => Json.arr #[Json.str n, Json.null, Json.null])).toArray)])
+
 def dispatch (j : Json) : Json :=
   match (field? j "suite") >>= getStr? with
   | some "sched" => (handleSched j).getD bad
@@ -454,6 +475,8 @@ def dispatch (j : Json) : Json :=
   | some "formatfiles" => (handleFormatFiles j).getD bad
   | some "style" => (handleStyle j).getD bad
   | some "preserve" => (handlePreserve j).getD bad
+  | some "layout" => (handleLayout j).getD bad
+  | some "imports" => (handleImports j).getD bad
   | _ => bad
 
 partial def loop (h : IO.FS.Stream) (out : IO.FS.Stream) : IO Unit := do
